@@ -182,18 +182,23 @@ Fixpoint hm_insert {V} (m : list (bytes * V)) (k : bytes) (v : V) : list (bytes 
 Definition hm_of_list {V} (l : list (bytes * V)) : list (bytes * V) :=
   fold_left (fun m kv => hm_insert m (fst kv) (snd kv)) l [].
 
-(* (String, Bytes) = 24 + 32 ; (String, Vec<String>) = 48 : requested capacity x entry size
-   (hashbrown rounds the bucket count up to a power of two >= 8/7 of it) *)
+(* HashMap::with_capacity(n) (hashbrown, as measured by the census probe): nothing for n = 0,
+   otherwise buckets * (entry + 1 control byte) + 16 where buckets = 4 / 8 / 16 for n < 4 / 8 / 15
+   and the next power of two of n*8/7 above.  (String, Bytes) = 56, (String, Vec<String>) = 48. *)
 Definition SZ_PAYLOAD_ENTRY : N := 56.
 Definition SZ_MULTIMAP_ENTRY : N := 48.
+Definition hm_buckets (n : N) : N :=
+  if n <? 4 then 4 else if n <? 8 then 8 else if n <? 15 then 16 else 2 ^ N.log2_up (n * 8 / 7).
+Definition hm_alloc (n entry : N) : N :=
+  if n =? 0 then 0 else hm_buckets n * (entry + 1) + 16.
 
 Definition read_bytes_map : parser (list (bytes * bytes)) :=
-  len <- read_short ;; tick_alloc (len * SZ_PAYLOAD_ENTRY) ;;;
+  len <- read_short ;; tick_alloc (hm_alloc len SZ_PAYLOAD_ENTRY) ;;;
   l <- repeatS (k <- read_string ;; v <- read_bytes ;; ret (k, v)) len ;;
   ret (hm_of_list l).
 
 Definition read_string_multimap : parser (list (bytes * list bytes)) :=
-  len <- read_short ;; tick_alloc (len * SZ_MULTIMAP_ENTRY) ;;;
+  len <- read_short ;; tick_alloc (hm_alloc len SZ_MULTIMAP_ENTRY) ;;;
   l <- repeatS (k <- read_string ;; v <- read_string_list ;; ret (k, v)) len ;;
   ret (hm_of_list l).
 
